@@ -40,6 +40,7 @@ MODEL_MAP = [
 
 KEY_F15A = 'TypeLengthString:bcd-plus:non-bytes-input'
 KEY_F15B = '_unpack6bitascii:length-not-multiple-of-3'
+KEY_F15C = 'FruPicmgRecord:type-0xC0-record-shorter-than-the-PICMG-structure'
 EPOCH = datetime.datetime(1996, 1, 1)
 TMP = C.BUILD / 'c15'
 
@@ -516,6 +517,27 @@ def oracle_parse(inp):
     return None if d is None else 'well-formed image (%s): parsed value differs from the encoded one at %s' % (inp['kind'], d)
 
 
+def short_c0(t, n, p3):
+    """a type-0xC0 record too short for what pyipmi decodes it as (class of finding F15c)"""
+    return t == 0xc0 and (n < 5 or (p3 == 0x27 and n < 7))
+
+
+def oracle_parse_c0(inp):
+    """as oracle_parse; for the short type-0xC0 records only type, version, end-of-list,
+    length and payload are required (the PICMG members are not encoded in them)"""
+    got = parse_impl(bytes.fromhex(inp['image']), inp['kind'])
+    if got[0] == 'exc':
+        return 'well-formed image with a short type-0xC0 OEM record (%s) raises %s' % (inp['kind'], got[1])
+    exp = inp['expect']
+    if isinstance(got[1], dict) and isinstance(got[1].get('multi'), list) and len(got[1]['multi']) == len(exp['multi']):
+        for e, g in zip(exp['multi'], got[1]['multi']):
+            raw = bytes.fromhex(e['raw'])
+            if short_c0(e['type'], e['len'], raw[3] if len(raw) > 3 else None):
+                g['kind'] = e['kind']
+    d = first_diff(exp, got[1])
+    return None if d is None else 'image with a short type-0xC0 OEM record (%s): parsed value differs from the encoded one at %s' % (inp['kind'], d)
+
+
 def oracle_field(inp):
     got = tls_impl(bytes.fromhex(inp['data']), inp['off'], inp['kind'])
     if got[0] == 'exc':
@@ -538,7 +560,7 @@ def oracle_part(inp):
     return None if d is None else '%s area class on the exact slice: %s differs from the encoded value' % (inp['what'], d)
 
 
-ORACLES = {'part': oracle_part, 'parse': oracle_parse, 'field': oracle_field, 'altered': oracle_altered}
+ORACLES = {'part': oracle_part, 'parse': oracle_parse, 'parse_c0': oracle_parse_c0, 'field': oracle_field, 'altered': oracle_altered}
 
 
 def replay(data):
@@ -672,19 +694,22 @@ def run(ctx):
                 got = parse_part('multi', img[start:], 'array')
                 add('chk_multi %s %s' % (C.c_hex(img[start:]), c_outcome(got, c_obs_multi)), ('multi-slice', img[start:].hex()))
 
-    # ---- 3. inventories outside the theorems' domain: type 0xC0 records shorter than a PICMG record
-    # (only the two encoders and model<->implementation are compared; no oracle: see design.d/C15.md)
+    # ---- 3. the class of the known finding F15c: type-0xC0 records shorter than the PICMG structure
+    # pyipmi decodes them as (outside wf_inv, inside wf_inv_full).  Encoders compared, model<->implementation
+    # compared, and the oracle demands type/version/end-of-list/length/payload as encoded.
     for _ in range(20 if q else 200):
         inv = rand_inventory(rng, small=True, subset=rng.choice([16, 20, 24]))
         k = rng.randrange(len(inv['multi']))
-        inv['multi'][k] = (0xc0, bytes(rng.randrange(256) for _ in range(rng.randrange(0, 7))))
-        if rng.random() < 0.5:
+        inv['multi'][k] = (0xc0, bytes(rng.randrange(256) for _ in range(rng.randrange(0, 5))))
+        if rng.random() < 0.3:
             inv['multi'][k] = (0xc0, b'\x5a\x31\x00\x27' + bytes(rng.randrange(256) for _ in range(rng.randrange(0, 3))))
-        img, layout = enc_inventory(inv)
-        img += bytes(rng.randrange(256) for _ in range(rng.choice([0, 0, 1, 4, 9])))
-        add('chk_enc_only %s %s' % (c_sinv(inv), C.c_hex(img[:len(enc_inventory(inv)[0])])), ('enc-only', img.hex()))
+        img0, layout = enc_inventory(inv)
+        exp = expect_inventory(inv, layout)
+        img = img0 + bytes(rng.randrange(256) for _ in range(rng.choice([0, 0, 1, 4, 9])))
+        add('chk_enc_only %s %s' % (c_sinv(inv), C.c_hex(img0)), ('enc-only', img0.hex()))
         for ik in ('bytes', 'array'):
             add('chk_parse %s %s' % (C.c_hex(img), c_outcome(parse_impl(img, ik), c_obs_inventory)), ('parse-short-c0', ik, img.hex()))
+            oracle('parse_c0', {'image': img.hex(), 'kind': ik, 'expect': exp}, KEY_F15C)
         D.add(('c0', img), True, 'inventory-short-0xC0-record')
 
     # ---- 4. the real images of the test-suite
